@@ -126,6 +126,16 @@ CLAIMED["C08"] = dict(cat="proof", ref="DESIGN.md §5 C08, §12",
         "generation); return_* options together with a reader schema and logical types under resolution are outside the model; eager schema matching of "
         "arrays/maps (error even for an empty array) is taken as the specification's reading",
    tech="Lean 4 step theorems + generated promotion tables + three-way differential run (implementation / model / specification reader)")
+CLAIMED["C12"] = dict(cat="proof", ref="DESIGN.md §5 C12, §12",
+   text="PARTIAL proof. Lean theorems: c12_marked_returned_unchanged (an object carrying the parsed marker is returned as it is and reproduces its named-schema "
+        "dictionary, so every operation sees the pair it saw before), c12_name_is_definition_{read,write,validate,skip} (where a schema refers to a type by name "
+        "each operation does exactly what it does on the definition held by the dictionary), c12_later_definitions_harmless (further definitions in a shared "
+        "dictionary never change a read or skip). That the raw schema and its pieces fill the dictionary alike, and idempotence for unmarked parsed forms, are "
+        "checked on the implementation: raw / parsed / parsed twice / piecewise (random subsets of the named types parsed separately, dependencies first) x "
+        "schemaless write+read, validate, canonical form, container write + stand-alone read, JSON write+read, generate_one.",
+   note="dictionary-equality clause observed, not proved; known finding F4 (canonical form and container header of a piecewise-parsed schema keep bare names); "
+        "piecewise forms exist only for top-level records (only they carry __named_schemas); F26 fixed",
+   tech="Lean 4 theorems on the (schema, dictionary) interface + differential run over schema forms and operations")
 PENDING = {}
 
 def main():
